@@ -14,3 +14,203 @@ Lemma avail_truncation_witness :
   availMS_exact rep2002 2002 cfg0 0 = Ok 2002 /\
   lookup rep2002 2002 cfg0 ByNumber 0 2001 = TTooEarly 1.
 Proof. vm_compute. repeat split; reflexivity. Qed.
+
+(** * The session: numbering of the attempts *)
+
+(** A group of attempts made by one call of sendMediaSegments for number [nr]: exactly one attempt per
+    representation, in representation order, all for that number, that instant and that lmsg flag. *)
+Definition group_wf (cf : scfg) (nr : Z) (g : list mput) : Prop :=
+  map mp_rep g = repIdxs cf /\ Forall (fun m => mp_nr m = nr) g.
+
+Fixpoint numbered (cf : scfg) (n : Z) (gs : list (list mput)) : Prop :=
+  match gs with
+  | [] => True
+  | g :: gs' => group_wf cf n g /\ numbered cf (n + 1) gs'
+  end.
+
+Lemma numbered_app cf a : forall n b,
+  numbered cf n (a ++ b) <-> numbered cf n a /\ numbered cf (n + lenZ a) b.
+Proof.
+  induction a as [|g a IH]; intros n b; cbn [app numbered].
+  - rewrite lenZ_nil, Z.add_0_r. tauto.
+  - rewrite lenZ_cons, IH. replace (n + 1 + lenZ a) with (n + (1 + lenZ a)) by lia. tauto.
+Qed.
+
+Lemma seqZ_S s n : seqZ s (Datatypes.S n) = s :: seqZ (s + 1) n.
+Proof. reflexivity. Qed.
+
+Lemma sendReps_shape cf nr now last : forall reps idx ref_ok g,
+  sendReps cf idx reps nr now last ref_ok = Ok g ->
+  map mp_rep g = seqZ idx (length reps) /\
+  Forall (fun m => mp_nr m = nr /\ mp_now m = now /\ mp_last m = last) g.
+Proof.
+  induction reps as [|ir reps IH]; intros idx ref_ok g H; cbn [sendReps] in H.
+  - inversion H; subst. split; [reflexivity|constructor].
+  - cbn [length]. rewrite seqZ_S.
+    destruct (sc_timeline cf).
+    + destruct (match ir_kind ir with RAudio => if idx =? 0 then true else false | _ => true end).
+      * destruct (ir_tab ir) as [t|]; [|discriminate].
+        match type of H with (do tl <- ?X ; _) = _ => destruct X as [tl| |] eqn:E; cbn [bind] in H; try discriminate end.
+        inversion H; subst. apply IH in E. destruct E as [E1 E2]. cbn [map mp_rep]. rewrite E1.
+        split; [reflexivity|constructor; [cbn; auto|exact E2]].
+      * match type of H with (do tl <- ?X ; _) = _ => destruct X as [tl| |] eqn:E; cbn [bind] in H; try discriminate end.
+        inversion H; subst. apply IH in E. destruct E as [E1 E2]. cbn [map mp_rep]. rewrite E1.
+        split; [reflexivity|constructor; [cbn; auto|exact E2]].
+    + match type of H with (do tl <- ?X ; _) = _ => destruct X as [tl| |] eqn:E; cbn [bind] in H; try discriminate end.
+      inversion H; subst. apply IH in E. destruct E as [E1 E2]. cbn [map mp_rep]. rewrite E1.
+      split; [reflexivity|constructor; [cbn; auto|exact E2]].
+Qed.
+
+Lemma sendMedia_wf cf nr now last g :
+  sendMedia cf nr now last = Ok g ->
+  group_wf cf nr g /\ Forall (fun m => mp_now m = now /\ mp_last m = last) g.
+Proof.
+  intros H. apply sendReps_shape in H. destruct H as [H1 H2]. split; [split|].
+  - exact H1.
+  - eapply Forall_impl; [|exact H2]. cbn. tauto.
+  - eapply Forall_impl; [|exact H2]. cbn. tauto.
+Qed.
+
+(** Representations whose own table is consulted under $Time$ addressing have one
+    (this excludes generated subtitles under $Time$ addressing: finding
+    c16-timeline-with-generated-subtitles-nil). *)
+Definition tabs_ok (cf : scfg) : Prop :=
+  sc_timeline cf = true -> Forall (fun ir => ir_tab ir <> None) (sc_reps cf).
+
+Lemma sendReps_ok cf nr now last : forall reps idx ref_ok,
+  (sc_timeline cf = true -> Forall (fun ir => ir_tab ir <> None) reps) ->
+  exists g, sendReps cf idx reps nr now last ref_ok = Ok g.
+Proof.
+  induction reps as [|ir reps IH]; intros idx ref_ok Ht; cbn [sendReps].
+  - eauto.
+  - destruct (sc_timeline cf) eqn:Etl.
+    + specialize (Ht eq_refl). inversion Ht as [|? ? Hir Hrest]; subst.
+      destruct (match ir_kind ir with RAudio => if idx =? 0 then true else false | _ => true end).
+      * destruct (ir_tab ir) as [t|]; [|congruence].
+        match goal with |- exists g, (do tl <- sendReps cf ?i reps nr now last ?r ; _) = _ =>
+          destruct (IH i r (fun _ => Hrest)) as [tl ->] end. cbn [bind]. eauto.
+      * destruct (IH (idx + 1) ref_ok (fun _ => Hrest)) as [tl ->]. cbn [bind]. eauto.
+    + destruct (IH (idx + 1) ref_ok ltac:(discriminate)) as [tl ->]. cbn [bind]. eauto.
+Qed.
+
+Lemma sendMedia_ok cf nr now last : tabs_ok cf -> exists g, sendMedia cf nr now last = Ok g.
+Proof. intros H. apply sendReps_ok. exact H. Qed.
+
+(** ** State bookkeeping *)
+
+Lemma phase_eq_running (p : phase) : p = PRunning \/ p <> PRunning.
+Proof. destruct p; [left; reflexivity|right; discriminate..]. Qed.
+
+Lemma advance_next cf st : nextNr (advance cf st) = nextNr st + 1.
+Proof. unfold advance. destruct (sc_avail cf (u32 (nextNr st + 1))); reflexivity. Qed.
+Lemma advance_last cf st : lastToSend (advance cf st) = lastToSend st.
+Proof. unfold advance. destruct (sc_avail cf (u32 (nextNr st + 1))); reflexivity. Qed.
+Lemma afterSend_next cf r g st : nextNr (afterSend cf r g st) = nextNr st.
+Proof. unfold afterSend. destruct (negb (sc_chunked cf)); [reflexivity|]. repeat (destruct (existsb _ g); [reflexivity|]). reflexivity. Qed.
+Lemma afterSend_last cf r g st : lastToSend (afterSend cf r g st) = lastToSend st.
+Proof. unfold afterSend. destruct (negb (sc_chunked cf)); [reflexivity|]. repeat (destruct (existsb _ g); [reflexivity|]). reflexivity. Qed.
+Lemma loopTop_next st : nextNr (loopTop st) = nextNr st.
+Proof. unfold loopTop. destruct (ph st); try reflexivity. destruct (_ && _); reflexivity. Qed.
+Lemma loopTop_last st : lastToSend (loopTop st) = lastToSend st.
+Proof. unfold loopTop. destruct (ph st); try reflexivity. destruct (_ && _); reflexivity. Qed.
+Lemma loopTop_running st : ph (loopTop st) = PRunning -> ph st = PRunning.
+Proof.
+  unfold loopTop. destruct (ph st) eqn:E; try (rewrite E; intros H; exact H); try reflexivity.
+Qed.
+
+Lemma catchup_numbered cf : forall clock st gs st',
+  catchup cf clock st = (gs, st') ->
+  numbered cf (nextNr st) gs /\ lastToSend st' = lastToSend st /\
+  (ph st' = PRunning -> nextNr st' = nextNr st + lenZ gs) /\
+  Forall (Forall (fun m => mp_last m = false)) gs.
+Proof.
+  induction clock as [|now clock IH]; intros st gs st' H; cbn [catchup] in H.
+  - inversion H; subst. cbn [numbered]; rewrite ?lenZ_nil; repeat split; try lia. constructor.
+  - destruct (ph st) eqn:Eph; try (inversion H; subst; cbn [numbered]; rewrite ?lenZ_nil; repeat split; try lia; try congruence; constructor).
+    destruct (availT st - now <=? 0).
+    + destruct (sendMedia cf (nextNr st) (availT st) false) as [g| |] eqn:Es.
+      * destruct (catchup cf clock (afterSend cf [] g (advance cf st))) as [gs1 st1] eqn:Ec.
+        inversion H; subst. apply IH in Ec. destruct Ec as (N1 & L1 & R1 & F1).
+        rewrite afterSend_next, advance_next in N1, R1. rewrite afterSend_last, advance_last in L1.
+        apply sendMedia_wf in Es. destruct Es as [Hw Hl].
+        cbn [numbered]. rewrite lenZ_cons. split; [split; assumption|]. split; [assumption|]. split.
+        -- intros Hr. rewrite R1 by assumption. lia.
+        -- constructor; [|assumption]. eapply Forall_impl; [|exact Hl]. cbn. tauto.
+      * inversion H; subst. cbn [numbered]; rewrite ?lenZ_nil; repeat split; try lia; try discriminate. constructor.
+      * inversion H; subst. cbn [numbered]; rewrite ?lenZ_nil; repeat split; try lia; try discriminate. constructor.
+    + inversion H; subst. cbn [numbered]; rewrite ?lenZ_nil; repeat split; try lia. constructor.
+Qed.
+
+Lemma fire_numbered cf fi st gs st' :
+  fire cf fi st = (gs, st') ->
+  numbered cf (nextNr st) gs /\ lastToSend st' = lastToSend st /\
+  (ph st' = PRunning -> nextNr st' = nextNr st + lenZ gs).
+Proof.
+  unfold fire. intros H.
+  destruct (sendMedia cf (nextNr st) (availT st) (nextNr st =? lastToSend st)) as [g| |] eqn:Es.
+  - pose proof (sendMedia_wf _ _ _ _ _ Es) as [Hw _].
+    destruct (ph (afterSend cf (fi_refuse fi) g st)) eqn:Ea.
+    + destruct (sc_test cf).
+      * inversion H; subst. cbn [numbered]. rewrite lenZ_cons, lenZ_nil, loopTop_next, loopTop_last, advance_next, advance_last.
+        intuition lia.
+      * destruct (catchup cf (fi_clock fi) (advance cf st)) as [gs1 st2] eqn:Ec. inversion H; subst.
+        apply catchup_numbered in Ec. destruct Ec as (N1 & L1 & R1 & _).
+        rewrite advance_next in N1, R1. rewrite advance_last in L1.
+        cbn [numbered]. rewrite lenZ_cons, loopTop_next, loopTop_last.
+        split; [tauto|]. split; [assumption|].
+        intros Hr. apply loopTop_running in Hr. rewrite R1 by assumption. lia.
+    + inversion H; subst. cbn [numbered]. rewrite afterSend_last, Ea. intuition discriminate.
+    + inversion H; subst. cbn [numbered]. rewrite afterSend_last, Ea. intuition discriminate.
+    + inversion H; subst. cbn [numbered]. rewrite afterSend_last, Ea. intuition discriminate.
+  - inversion H; subst. cbn [numbered ph stopped crashed lastToSend]. intuition discriminate.
+  - inversion H; subst. cbn [numbered ph stopped crashed lastToSend]. intuition discriminate.
+Qed.
+
+Lemma step_numbered cf st ev gs st' :
+  step cf st ev = (gs, st') ->
+  numbered cf (nextNr st) gs /\ lastToSend st' = lastToSend st /\
+  (ph st' = PRunning -> nextNr st' = nextNr st + lenZ gs /\ ph st = PRunning).
+Proof.
+  unfold step. intros H. destruct (ph st) eqn:Eph.
+  - destruct ev as [fi|fi|].
+    + apply fire_numbered in H. intuition.
+    + apply fire_numbered in H. intuition.
+    + inversion H; subst. cbn [numbered ph stopped lastToSend]. intuition discriminate.
+  - inversion H; subst. cbn [numbered]. rewrite lenZ_nil. intuition (try lia; congruence).
+  - inversion H; subst. cbn [numbered]. rewrite lenZ_nil. intuition (try lia; congruence).
+  - inversion H; subst. cbn [numbered]. rewrite lenZ_nil. intuition (try lia; congruence).
+Qed.
+
+(** Nothing happens once the loop has left the running state. *)
+Lemma run_dead cf : forall evs st, ph st <> PRunning -> run cf st evs = ([], st).
+Proof.
+  induction evs as [|ev evs IH]; intros st H; cbn [run]; [reflexivity|].
+  unfold step. destruct (ph st) eqn:E; try congruence; rewrite IH by congruence; reflexivity.
+Qed.
+
+Lemma run_app cf : forall a b st,
+  run cf st (a ++ b) =
+  let '(g1, s1) := run cf st a in let '(g2, s2) := run cf s1 b in (g1 ++ g2, s2).
+Proof.
+  induction a as [|ev a IH]; intros b st; cbn [app run].
+  - destruct (run cf st b); reflexivity.
+  - destruct (step cf st ev) as [g s1]. rewrite IH.
+    destruct (run cf s1 a) as [g1 s2]. destruct (run cf s2 b) as [g2 s3]. now rewrite app_assoc.
+Qed.
+
+Lemma run_numbered cf : forall evs st gs st',
+  run cf st evs = (gs, st') ->
+  numbered cf (nextNr st) gs /\ lastToSend st' = lastToSend st /\
+  (ph st' = PRunning -> nextNr st' = nextNr st + lenZ gs).
+Proof.
+  induction evs as [|ev evs IH]; intros st gs st' H; cbn [run] in H.
+  - inversion H; subst. cbn [numbered]; rewrite ?lenZ_nil; repeat split; auto; lia.
+  - destruct (step cf st ev) as [g s1] eqn:Es. destruct (run cf s1 evs) as [gs1 s2] eqn:Er.
+    inversion H; subst. apply step_numbered in Es. destruct Es as (N0 & L0 & R0).
+    destruct (phase_eq_running (ph s1)) as [Hr|Hr].
+    + destruct (R0 Hr) as [R0' _]. apply IH in Er. destruct Er as (N1 & L1 & R1).
+      rewrite numbered_app, lenZ_app. rewrite <- R0'. split; [tauto|]. split; [congruence|].
+      intros Hr2. rewrite R1 by assumption. lia.
+    + rewrite run_dead in Er by assumption. inversion Er; subst. rewrite app_nil_r.
+      split; [assumption|]. split; [assumption|]. intros Hr2. congruence.
+Qed.
